@@ -825,7 +825,15 @@ def ctx_job(exe, mexe, freq, K, seed, arena_mb, quick, extra_cmds=None):
     sc = Scenario(rng, K, arena_mb, quick).build()
     if extra_cmds:
         for c in extra_cmds:
-            sc.emit(c)
+            t = c.split()
+            if t[0] == "resetparams":
+                sc.params = {}
+            if t[0] == "param":
+                sc.params[int(t[1])] = int(t[2])
+            if t[0] in ("oneshot", "stream", "bufferless"):
+                sc.emit(c, kind=t[0])
+            else:
+                sc.emit(c)
     t0 = time.time()
     rc, lines, err = run_scenario(exe, arena_mb, sc.cmds, timeout=1500)
     res = dict(freq=freq, seed=seed, rc=rc, err=err[-300:], cmds=sc.cmds, nlines=len(lines), wall=time.time() - t0)
